@@ -16,11 +16,23 @@
 // toFloat.cpp (compiled and run by the python driver) and the checked-in toFloat.h are
 // tokenised here; both must consist of the same 65536 hex words in the same order, and the
 // words must be the binary16 decoding of their index (engine/halfref.hpp).
+//
+// Build variant IMATH_HALF_ENABLE_FP_EXCEPTIONS ("fpexc" objects): compared like every other object; objects marked
+// boundary-only are swept over the boundary subset of float inputs (c01_boundary.hpp) instead of all 2^32.
+//
+// Ambient state (stage ambient-states): the conversions are functions of the bit pattern, so every object must return
+// the reference bits under every non-default rounding mode and under MXCSR DAZ / FTZ / DAZ+FTZ as well (the correct
+// answer does not depend on them: float subnormals become signed zeros anyway, half subnormals are normal floats; the
+// F16C instructions ignore DAZ for half sources and FTZ for half results). All 2^16 half inputs of every object and
+// entry point; all 2^32 float inputs of the software objects marked "ambient" (the F16C objects' float sweep under the
+// three rounding modes is stage f16c-ambient-rounding-modes).
 #include "../engine/halfref.hpp"
 #include "../engine/report.hpp"
+#include "c01_boundary.hpp"
 #include <cfenv>
 #include <dlfcn.h>
 #include <fstream>
+#include <xmmintrin.h>
 
 using namespace vf;
 
@@ -31,12 +43,19 @@ typedef const char* (*desc_fn) (void);
 struct Cfg
 {
     std::string name, kind, path, expect_desc, desc;
-    bool        f16c = false, cxx = false;
+    bool        f16c = false, cxx = false, fpexc = false, boundary_only = false, ambient = false;
     f2h_fn      f2h = nullptr, f2h_class = nullptr;
     h2f_fn      h2f = nullptr, h2f_class = nullptr;
     // measured tallies
     std::atomic<long long> cmp_bitwise{0}, cmp_nan_loose{0};
 };
+
+// non-default ambient floating-point states
+struct Ambient { const char* name; int round; unsigned mxcsr; bool denormal_mode; };
+static const Ambient AMB[6] = {{"FE_UPWARD", FE_UPWARD, 0, false},        {"FE_DOWNWARD", FE_DOWNWARD, 0, false}, {"FE_TOWARDZERO", FE_TOWARDZERO, 0, false},
+                               {"MXCSR-DAZ", FE_TONEAREST, 0x0040, true}, {"MXCSR-FTZ", FE_TONEAREST, 0x8000, true}, {"MXCSR-DAZ+FTZ", FE_TONEAREST, 0x8040, true}};
+static inline void ambient_set (const Ambient& a) { fesetround (a.round); if (a.mxcsr) _mm_setcsr (_mm_getcsr () | a.mxcsr); }
+static inline void ambient_reset () { _mm_setcsr (_mm_getcsr () & ~0x8040u); fesetround (FE_TONEAREST); }
 
 static std::string hx (uint32_t v, int w) { char b[16]; snprintf (b, sizeof b, "0x%0*x", w, v); return b; }
 static bool is_nan16 (uint16_t h) { return (h & 0x7c00) == 0x7c00 && (h & 0x3ff); }
@@ -126,10 +145,17 @@ int main (int argc, char** argv)
                 if (q == std::string::npos) break;
                 p = q + 1;
             }
-            if (col.size () != 4) { fprintf (stderr, "c02_driver: bad config line: %s\n", line.c_str ()); return 3; }
+            if (col.size () != 5) { fprintf (stderr, "c02_driver: bad config line: %s\n", line.c_str ()); return 3; }
             Cfg* c = new Cfg;
             c->name = col[0]; c->kind = col[1]; c->path = col[2]; c->expect_desc = col[3];
             c->f16c = c->kind == "f16c";
+            {
+                const std::string at = "," + col[4] + ",";
+                c->fpexc         = at.find (",fpexc,") != std::string::npos;
+                c->boundary_only = at.find (",boundary-only,") != std::string::npos;
+                c->ambient       = at.find (",ambient,") != std::string::npos;
+                if (c->ambient && c->f16c) { fprintf (stderr, "c02_driver: the float-input ambient sweep is for software objects (%s)\n", c->name.c_str ()); return 3; }
+            }
             void* h = dlopen (c->path.c_str (), RTLD_NOW | RTLD_LOCAL);
             if (!h) { fprintf (stderr, "c02_driver: dlopen %s: %s\n", c->path.c_str (), dlerror ()); return 3; }
             c->f2h       = (f2h_fn) dlsym (h, "f2h_block");
@@ -195,7 +221,7 @@ int main (int argc, char** argv)
     }
 
     // classes of comparisons, by configuration (measured, not assumed)
-    auto branch_differs_from_ref = [&] (const Cfg& c) { return c.kind != ref.kind || c.cxx != ref.cxx; };
+    auto branch_differs_from_ref = [&] (const Cfg& c) { return c.kind != ref.kind || c.cxx != ref.cxx || c.fpexc != ref.fpexc; };
     std::atomic<long long> nontrivial (0);
 
     // ---- stage 2: all 2^16 half -> float, every configuration ---------------------------------
@@ -274,6 +300,7 @@ int main (int argc, char** argv)
         std::vector<Job> jobs;
         for (Cfg* c : cfgs)
         {
+            if (c->boundary_only) continue; // stage float-to-half-boundary-subset
             if (c != &ref) jobs.push_back ({c, c->f2h, "f2h[" + c->name + "] != reference", "f2h[" + c->name + "].nan-sign-or-nan-ness != reference", branch_differs_from_ref (*c), true});
             if (c->cxx) jobs.push_back ({c, c->f2h_class, "f2h.class[" + c->name + "] != reference", "f2h.class[" + c->name + "].nan-sign-or-nan-ness != reference", true, true});
         }
@@ -336,7 +363,9 @@ int main (int argc, char** argv)
         ref.f2h (0x33000001u, 0x33000002u, s1);
         ref.f2h (0x477fefffu, 0x477ff000u, s2);
         R ().sample ("float 0x33000001 -> " + hx (s1[0], 4) + ", float 0x477fefff -> " + hx (s2[0], 4) + " in " + ref.name);
-        if (complete) R ().stage_done ("all 2^32 float patterns x " + std::to_string (cfgs.size ()) + " configurations (C function; C++ constructor where the language is C++) vs " + ref.name);
+        size_t nfull = 0;
+        for (Cfg* c : cfgs) if (!c->boundary_only) ++nfull;
+        if (complete) R ().stage_done ("all 2^32 float patterns x " + std::to_string (nfull) + " configurations (C function; C++ constructor where the language is C++) vs " + ref.name);
         else R ().stage_partial (std::to_string (done.load ()) + " of 2^32 float patterns (all configurations on each)");
     }
 
@@ -386,6 +415,142 @@ int main (int argc, char** argv)
         }
     }
 
+    // ---- stage 5: boundary subset of the float inputs for the objects that are not swept over all 2^32 -----------
+    long long fpexc_cmp = 0;
+    {
+        std::vector<Cfg*> bo;
+        for (Cfg* c : cfgs) if (c->boundary_only) bo.push_back (c);
+        if (!bo.empty () && R ().stage ("float-to-half-boundary-subset"))
+        {
+            const std::vector<uint32_t> in = c01b::boundary_floats ();
+            // maximal runs of consecutive bit patterns (the block entry points take ranges)
+            std::vector<std::pair<uint32_t, uint32_t>> runs; // [first, last]
+            for (size_t i = 0; i < in.size ();)
+            {
+                size_t j = i;
+                while (j + 1 < in.size () && in[j + 1] == in[j] + 1 && j + 1 - i < 4096) ++j;
+                runs.push_back ({in[i], in[j]});
+                i = j + 1;
+            }
+            struct Job { Cfg* c; f2h_fn fn; std::string site; };
+            std::vector<Job> jobs;
+            for (Cfg* c : bo)
+            {
+                jobs.push_back ({c, c->f2h, "f2h[" + c->name + "].boundary-subset != reference"});
+                if (c->cxx) jobs.push_back ({c, c->f2h_class, "f2h.class[" + c->name + "].boundary-subset != reference"});
+            }
+            std::atomic<long long> tr (0), st (0), nan_in (0), tie_or_threshold (0);
+            bool complete = parallel_chunks (runs.size (), 1024, [&] (uint64_t lo, uint64_t hi, unsigned) {
+                uint16_t  rb[4096], b[4096];
+                long long l_tr = 0, l_st = 0;
+                for (uint64_t r = lo; r < hi; ++r)
+                {
+                    const uint64_t a = runs[(size_t) r].first, e = (uint64_t) runs[(size_t) r].second + 1;
+                    const size_t   n = (size_t) (e - a);
+                    ref.f2h (a, e, rb);
+                    l_st += (long long) n;
+                    for (Job& j : jobs)
+                    {
+                        j.fn (a, e, b);
+                        l_tr += (long long) n; l_st += (long long) n;
+                        j.c->cmp_bitwise += (long long) n;
+                        long long bad = 0;
+                        for (size_t k = 0; k < n; ++k)
+                            if (b[k] != rb[k] && ++bad <= CAP) R ().fail (j.site, "float " + hx ((uint32_t) (a + k), 8), hx (rb[k], 4), hx (b[k], 4));
+                        mismatch_total (j.site, bad);
+                    }
+                }
+                tr += l_tr; st += l_st; nontrivial += l_tr;
+            });
+            R ().add ("states", st.load ());
+            R ().add ("transitions", tr.load ());
+            R ().add ("evaluations", st.load ());
+            R ().add ("boundary_subset_float_inputs", (long long) in.size ());
+            if (complete) R ().stage_done (std::to_string (in.size ()) + " boundary float patterns (every half value and midpoint +-2 ulps, every exponent x boundary significands, every literal threshold +-3, both signs) x " + std::to_string (bo.size ()) + " configurations vs " + ref.name);
+            else R ().stage_partial ("boundary subset cut short");
+        }
+    }
+
+    // ---- stage 6: ambient floating-point state (rounding mode, MXCSR DAZ / FTZ) -----------------------------------
+    long long amb_round = 0, amb_denorm = 0, amb_soft_h2f = 0;
+    if (R ().stage ("ambient-states"))
+    {
+        // (a) all 2^16 half inputs, every object and entry point
+        {
+            std::vector<uint32_t> rb (65536), b (65536);
+            ref.h2f (0, 65536, rb.data ());
+            for (Cfg* c : cfgs)
+                for (int ep = 0; ep < (c->cxx ? 2 : 1); ++ep)
+                    for (const Ambient& a : AMB)
+                    {
+                        h2f_fn fn = ep ? c->h2f_class : c->h2f;
+                        ambient_set (a);
+                        fn (0, 65536, b.data ());
+                        ambient_reset ();
+                        const std::string site = std::string (ep ? "h2f.class[" : "h2f[") + c->name + "].under-" + a.name + " != reference";
+                        long long bad = 0;
+                        for (uint32_t i = 0; i < 65536; ++i)
+                        {
+                            bool differs = (c->f16c && is_nan16 ((uint16_t) i)) ? (!is_nan32 (b[i]) || ((b[i] ^ rb[i]) >> 31)) : (b[i] != rb[i]);
+                            if (differs && ++bad <= 64) R ().fail (site, "half " + hx (i, 4), hx (rb[i], 8), hx (b[i], 8));
+                        }
+                        mismatch_total (site, bad);
+                        (a.denormal_mode ? amb_denorm : amb_round) += 65536;
+                        if (!c->f16c && c->kind != "table") amb_soft_h2f += 65536;
+                    }
+            R ().add ("states", amb_round + amb_denorm);
+            R ().add ("transitions", amb_round + amb_denorm);
+        }
+        // (b) all 2^32 float inputs, the software objects marked "ambient"
+        std::vector<Cfg*> sw;
+        for (Cfg* c : cfgs) if (c->ambient) sw.push_back (c);
+        struct Job { Cfg* c; f2h_fn fn; std::string pfx; };
+        std::vector<Job> jobs;
+        for (Cfg* c : sw)
+        {
+            jobs.push_back ({c, c->f2h, "f2h[" + c->name + "].under-"});
+            if (c->cxx) jobs.push_back ({c, c->f2h_class, "f2h.class[" + c->name + "].under-"});
+        }
+        const uint64_t N = 1ull << 32, CH = 1ull << 18;
+        std::atomic<long long> tr_r (0), tr_d (0), done (0);
+        bool complete = jobs.empty () || parallel_chunks (N, CH, [&] (uint64_t lo, uint64_t hi, unsigned) {
+            static thread_local std::vector<uint16_t> rb, b;
+            rb.resize (CH); b.resize (CH);
+            const size_t n = (size_t) (hi - lo);
+            ref.f2h (lo, hi, rb.data ());
+            for (Job& j : jobs)
+                for (const Ambient& a : AMB)
+                {
+                    // quick: DAZ and FTZ together only (each can only turn values into zeros, so a conversion sensitive to one
+                    // of them is sensitive to the pair); thorough: each of the six states
+                    if (!R ().thorough () && a.denormal_mode && a.mxcsr != 0x8040) continue;
+                    ambient_set (a);
+                    j.fn (lo, hi, b.data ());
+                    ambient_reset ();
+                    (a.denormal_mode ? tr_d : tr_r) += (long long) n;
+                    if (memcmp (b.data (), rb.data (), n * 2) == 0) continue;
+                    long long         bad  = 0;
+                    const std::string site = j.pfx + a.name + " != reference";
+                    for (size_t k = 0; k < n; ++k)
+                        if (b[k] != rb[k] && ++bad <= CAP) R ().fail (site, "float " + hx ((uint32_t) (lo + k), 8), hx (rb[k], 4), hx (b[k], 4));
+                    mismatch_total (site, bad);
+                }
+            done += (long long) n;
+        });
+        R ().add ("transitions", tr_r.load () + tr_d.load ());
+        R ().add ("states", tr_r.load () + tr_d.load ());
+        amb_round += tr_r.load (); amb_denorm += tr_d.load ();
+        nontrivial += tr_r.load () + tr_d.load ();
+        R ().cls ("ambient.non-default-rounding-mode.comparisons", amb_round);
+        R ().cls ("ambient.mxcsr-daz-ftz.comparisons", amb_denorm);
+        R ().cls ("ambient.bit-shift-half-to-float(software, no table).comparisons", amb_soft_h2f);
+        R ().cls ("ambient.software-float-to-half.all-2^32.comparisons", tr_r.load () + tr_d.load ());
+        std::string what = "all 65536 half patterns x " + std::to_string (cfgs.size ()) + " configurations (every entry point); all 2^32 float patterns x " + std::to_string (sw.size ()) +
+                           " software configurations (" + std::to_string (jobs.size ()) + " entry points); each x {FE_UPWARD, FE_DOWNWARD, FE_TOWARDZERO, MXCSR DAZ, FTZ, DAZ+FTZ}" + (R ().thorough () ? "" : " (float inputs in the quick tier: DAZ+FTZ only of the three denormal modes)") + " vs " + ref.name + " under the default state";
+        if (complete) R ().stage_done (what);
+        else R ().stage_partial (std::to_string (done.load ()) + " of 2^32 float patterns of: " + what);
+    }
+
     // ---- outcome classes: comparisons per selected #if branch / language -----------------------
     {
         std::map<std::string, long long> by;
@@ -397,7 +562,11 @@ int main (int argc, char** argv)
             if (c->f16c) { any_f16c = true; nan_loose += c->cmp_nan_loose.load (); f16c_bitwise += c->cmp_bitwise.load (); }
             else by["branch." + c->kind] += t;
             by[c->cxx ? "language.c++" : "language.c"] += t;
+            if (c->fpexc) fpexc_cmp += t;
         }
+        bool any_fpexc = false;
+        for (Cfg* c : cfgs) any_fpexc |= c->fpexc;
+        if (any_fpexc) R ().cls ("variant.IMATH_HALF_ENABLE_FP_EXCEPTIONS.comparisons", fpexc_cmp);
         // the three software selections and both languages are always part of the matrix
         const char* must[] = {"branch.table", "branch.bitshift-macro", "branch.bitshift-cmake-option-off", "language.c", "language.c++"};
         for (const char* m : must)
